@@ -294,8 +294,11 @@ def _conv_enum_cases(shard):
 
 
 def shards_conv_enum(tier):
-    return [{"id": "0", "l": 0, "lo": 0, "step": 1, "cost": 5}] + [{"id": f"1-{i}", "l": 1, "lo": i, "step": 12, "cost": 100}
-                                                                   for i in range(12)]
+    out = [{"id": "0", "l": 0, "lo": 0, "step": 1, "cost": 5}] + [{"id": f"1-{i}", "l": 1, "lo": i, "step": 12, "cost": 100}
+                                                                  for i in range(12)]
+    if tier == "thorough":  # l = 2: all 720 Cartesian orders and all 120 x 32 label orders x signs
+        out += [{"id": f"2-{i}", "l": 2, "lo": i, "step": 64, "cost": 400} for i in range(64)]
+    return out
 
 
 # ---------------------------------------------------------------------------------------------
@@ -501,6 +504,6 @@ SUBCHECKS = [
     SubCheck("assembly", judge_assembly, shards_assembly, cases=assembly_cases),
 ]
 EXHAUSTIVE = {"types": "every cartesian/spherical assignment (2^n) of each generated basis",
-              "conventions-enum": "l <= 1: every Cartesian component order and every label order x sign pattern",
+              "conventions-enum": "l <= 1 (thorough: l <= 2): every Cartesian component order and every label order x sign pattern",
               "assembly": "one-/two-index classes: all 1- and 2-shell shapes over (l 0..2, M 1..2, c/s); four-index class: all "
                           "shapes of 1-3 shells over (l 0..1, M 1..2, c/s); every construct_array_* path"}
